@@ -173,6 +173,12 @@ def k_args(run, case):
         guarded(run, case, fname, {"r0": rs[0], "r1": rs[1], "r2": rs[2], "traj_in_r0": A},
                 lambda: result_mod.merge_results(rs))
     elif fname == "trajectory_to_df":
+        if rng.random() < .3:
+            # arrays as they come out of np.fromfile / HDF5 / FITS readers: big-endian float64
+            from evo.core.trajectory import PoseTrajectory3D
+            vA = gen.read_views(A)
+            A = PoseTrajectory3D(vA["p"].astype(">f8"), vA["q"].astype(">f8"), vA["t"].astype(">f8"))
+            run.hit("trajectory built from big-endian arrays handed to the pandas bridge")
         guarded(run, case, fname, {"traj": A}, lambda: pandas_bridge.trajectory_to_df(A))
     elif fname == "df_to_trajectory":
         df = pandas_bridge.trajectory_to_df(A)
